@@ -1384,11 +1384,32 @@ fn directed(i: usize) -> Option<SessionSpec> {
                 line("func-call-value", vec![st("functie g() { 0 };", true), st("g();", false), st("[a, b];", false)], Fail::None, true, true),
             ]))
         }
+        9 => {
+            // many heap-valued globals over many lines (more globals than the machine reserves up front,
+            // more managed objects than one bitmap word), collections in between, everything read at the end
+            let mut lines = Vec::new();
+            for k in 0..70 {
+                lines.push(line("decl-arr", vec![st(&format!("stel h{k} = [string({k}), {k}.5, [\"in{k}\"]];", k = k), true)], Fail::None, false, k % 10 == 5));
+                if k % 10 == 9 {
+                    lines.push(line(
+                        "func-call-value",
+                        vec![st(&format!("functie c{k}() {{ [\"tmp\", {k}.25] }};", k = k), true), st(&format!("c{k}();", k = k), false)],
+                        Fail::None,
+                        true,
+                        true,
+                    ));
+                    lines.push(line("run-fail", vec![st(&format!("h{}[0] = [h{}, 1 + ja];", k, k - 1), false)], Fail::Run(0), false, false));
+                }
+            }
+            lines.push(line("read", vec![st("[h0, h35, h69];", false)], Fail::None, true, true));
+            lines.push(line("read", vec![st("h12[0];", false)], Fail::None, true, true));
+            Some(mk(lines))
+        }
         _ => None,
     }
 }
 
-pub const DIRECTED: u64 = 9;
+pub const DIRECTED: u64 = 10;
 
 /// a short random session (Miri adjunct)
 pub fn small_session(seed: u64, i: u64) -> SessionSpec {
@@ -1536,7 +1557,7 @@ pub fn scenario(acc: &mut Acc, seed: u64, index: u64, tier: Tier) {
     if index < DIRECTED {
         let sp = directed(index as usize).unwrap();
         acc.count("directed_sessions", 1);
-        h = explore(acc, &sp, seed, index, index != 0, &mut rng);
+        h = explore(acc, &sp, seed, index, index != 0 && index != 9, &mut rng);
         if index == 2 {
             acc.sample(json!({"directed_session": sp.lines.iter().map(|l| l.text()).collect::<Vec<_>>()}));
         }
